@@ -12,6 +12,10 @@ Ltac simp := cbn [bufs curr chan shl wl file pc todo done with_pc with_bufs with
 Definition ids (s : st) : list nat := wl s ++ ends (chan s) ++ shl_after (chan s) (shl s).
 
 (* faithful state sf vs abstract dark state sa *)
+(* the faithful machine has no exec: it is never inside an exec()ed image's set-up *)
+Definition nox (s : st) : Prop :=
+  match pc s with PXStart _ _ | PXFlag _ _ | PXTask _ _ => False | _ => True end.
+
 Record Dark (sf sa : st) : Prop := {
   d_pc : pc sa = PDark;
   d_chan : chan sf = chan sa; d_shl : shl sf = shl sa; d_wl : wl sf = wl sa; d_file : file sf = file sa;
@@ -20,6 +24,7 @@ Record Dark (sf sa : st) : Prop := {
   d_cur : forall c, curr sf = Some c -> ~ In c (ids sa);
   d_curok : cur_ok sf;
   d_prep : pc sf = PPrepStart \/ pc sf = PPrepFlag -> ~ In 0 (ids sa);
+  d_nox : nox sf;
   d_nodup : NoDup (ids sa)
 }.
 
@@ -42,16 +47,24 @@ Proof.
 Qed.
 
 (* buffers that are RECORDING and not the current one are left alone *)
+Lemma pstep_nox single cap s : nox s -> nox (pstep single cap s).
+Proof.
+  intro H. unfold nox in H. unfold pstep.
+  destruct (pc s) eqn:Epc; try contradiction;
+    try destruct (todo s); try destruct (curr s); try destruct (_ <? _); try destruct (has_pl _); try destruct single;
+    unfold nox; simp; try exact I; rewrite Epc; exact I.
+Qed.
+
 Lemma pstep_frame single cap s i :
   cur_ok s -> curr s <> Some i -> f_rec (b_flag (getb i (bufs s))) = true ->
-  (pc s = PPrepFlag -> i <> 0) ->
+  (pc s = PPrepFlag -> i <> 0) -> nox s ->
   getb i (bufs (pstep single cap s)) = getb i (bufs s).
 Proof.
-  intros Hc Hi Hf H0. unfold pstep, cur_ok in *.
+  intros Hc Hi Hf H0 Hnx. unfold pstep, cur_ok, nox in *.
   assert (Hlen : i < length (bufs s)).
   { destruct (Nat.lt_ge_cases i (length (bufs s))) as [H|H]; [exact H|].
     rewrite getb_overflow in Hf by exact H. discriminate. }
-  destruct (pc s) eqn:Epc; try reflexivity;
+  destruct (pc s) eqn:Epc; try reflexivity; try contradiction;
     try (destruct (todo s); reflexivity);
     try (destruct (curr s); [destruct (_ <? _)|]; reflexivity);
     try (destruct (curr s); reflexivity).
@@ -92,10 +105,11 @@ Proof.
 Qed.
 
 Lemma pstep_curr single cap s c' :
+  nox s ->
   curr (pstep single cap s) = Some c' ->
   curr s = Some c' \/ f_rec (b_flag (getb c' (bufs s))) = false \/ (pc s = PPrepFlag /\ c' = 0).
 Proof.
-  unfold pstep. destruct (pc s) eqn:Epc;
+  unfold nox, pstep. intro Hnx. destruct (pc s) eqn:Epc; try contradiction;
     repeat match goal with |- context [match ?x with _ => _ end] => destruct x eqn:? end; simp;
     intro H; try (left; congruence); try discriminate.
   all: match goal with
@@ -118,10 +132,10 @@ Qed.
 (* ------------------------------------------------------------------ dark phase: steps keep the relation *)
 Lemma dark_pstep single cap sf sa : Dark sf sa -> Dark (pstep_mute single cap sf) sa.
 Proof.
-  intros [Hpc Hch Hsh Hwl Hfi Hb Hr Hc Hok Hprep Hnd].
+  intros [Hpc Hch Hsh Hwl Hfi Hb Hr Hc Hok Hprep Hnx Hnd].
   destruct (pstep_keeps single cap sf) as [K1 [K2 K3]].
   assert (Hfr : forall i, In i (ids sa) -> getb i (bufs (pstep single cap sf)) = getb i (bufs sf)).
-  { intros i Hi. apply pstep_frame; [exact Hok | | apply Hr; exact Hi |].
+  { intros i Hi. apply pstep_frame; [exact Hok | | apply Hr; exact Hi | | exact Hnx].
     - intro E. exact (Hc i E Hi).
     - intros Ep E0. subst i. apply (Hprep (or_intror Ep)). exact Hi. }
   unfold pstep_mute. constructor; simp.
@@ -132,22 +146,27 @@ Proof.
   - rewrite K3. exact Hfi.
   - intros i Hi. rewrite (Hfr i Hi). apply Hb. exact Hi.
   - intros i Hi. rewrite (Hfr i Hi). apply Hr. exact Hi.
-  - intros c' Ec' Hin. destruct (pstep_curr single cap sf c' Ec') as [E|[E|[Ep E0]]].
+  - intros c' Ec' Hin. destruct (pstep_curr single cap sf c' Hnx Ec') as [E|[E|[Ep E0]]].
     + exact (Hc c' E Hin).
     + rewrite (Hr c' Hin) in E. discriminate.
     + subst c'. apply (Hprep (or_intror Ep)). exact Hin.
   - pose proof (pstep_cur_ok single cap sf Hok) as H. unfold cur_ok in *. simp. exact H.
   - intro Hp. apply Hprep. apply (pstep_pc_prep single cap). exact Hp.
+  - pose proof (pstep_nox single cap sf Hnx) as H. unfold nox in *. simp. exact H.
   - exact Hnd.
 Qed.
 
 Lemma ids_cons_start i ch sh w : w ++ ends (MStart i :: ch) ++ shl_after (MStart i :: ch) sh = w ++ ends ch ++ shl_after ch (sh ++ [i]).
 Proof. reflexivity. Qed.
 
-Lemma dark_rstep sf sa : Dark sf sa -> Dark (rstep sf) (rstep sa).
+(* no exec in the faithful machine: no TASK_START of an exec()ed image in the pipe *)
+Definition notask (s : st) : Prop := forall i, ~ In (MTask i) (chan s).
+
+Lemma dark_rstep sf sa : notask sa -> Dark sf sa -> Dark (rstep sf) (rstep sa).
 Proof.
-  intros [Hpc Hch Hsh Hwl Hfi Hb Hr Hc Hok Hprep Hnd].
-  unfold rstep. rewrite Hch. destruct (chan sa) as [|[i|i] ch] eqn:E.
+  intros Hnt [Hpc Hch Hsh Hwl Hfi Hb Hr Hc Hok Hprep Hnx Hnd].
+  unfold rstep. rewrite Hch. destruct (chan sa) as [|[i|i|i] ch] eqn:E;
+    [| | | exfalso; apply (Hnt i); rewrite E; left; reflexivity].
   - constructor; try assumption. rewrite E. exact Hch.
   - (* REC_START *)
     assert (Hids : ids (with_shl (shl sa ++ [i]) (with_chan ch sa)) = ids sa).
@@ -184,7 +203,7 @@ Qed.
 
 Lemma dark_wstep sf sa : Dark sf sa -> Dark (wstep sf) (wstep sa).
 Proof.
-  intros [Hpc Hch Hsh Hwl Hfi Hb Hr Hc Hok Hprep Hnd].
+  intros [Hpc Hch Hsh Hwl Hfi Hb Hr Hc Hok Hprep Hnx Hnd].
   unfold wstep. rewrite Hwl. destruct (wl sa) as [|i w] eqn:E.
   - constructor; try assumption. rewrite E. exact Hwl.
   - assert (Hids0 : ids sa = i :: (w ++ ends (chan sa) ++ shl_after (chan sa) (shl sa))).
@@ -205,8 +224,16 @@ Proof.
 Qed.
 
 (* ------------------------------------------------------------------ the end of the recording sees the same *)
-Lemma dark_iter_r n : forall sf sa, Dark sf sa -> Dark (iter n rstep sf) (iter n rstep sa).
-Proof. induction n as [|n IH]; intros sf sa H; [exact H|]. cbn [iter]. apply IH, dark_rstep, H. Qed.
+Lemma notask_rstep s : notask s -> notask (rstep s).
+Proof.
+  intros H i Hin. destruct (rstep_frame s) as [F _]. rewrite F in Hin. apply (H i).
+  destruct (chan s); [exact Hin | right; exact Hin].
+Qed.
+Lemma dark_iter_r n : forall sf sa, notask sa -> Dark sf sa -> Dark (iter n rstep sf) (iter n rstep sa).
+Proof.
+  induction n as [|n IH]; intros sf sa Hn H; [exact H|]. cbn [iter].
+  apply IH; [apply notask_rstep; exact Hn | apply dark_rstep; assumption].
+Qed.
 
 Lemma drain_chan_nil s : chan (drain s) = [].
 Proof.
@@ -245,13 +272,13 @@ Proof.
   rewrite IH; [reflexivity|]. intros y Hy. apply H. right. exact Hy.
 Qed.
 
-Lemma dark_finish_file sf sa : Dark sf sa -> file (finish sf) = file (finish sa).
+Lemma dark_finish_file sf sa : notask sa -> Dark sf sa -> file (finish sf) = file (finish sa).
 Proof.
-  intro H. unfold finish.
+  intros Hnt H. unfold finish.
   assert (Hd : Dark (drain sf) (drain sa)).
-  { unfold drain. rewrite (d_chan _ _ H). apply dark_iter_r. exact H. }
+  { unfold drain. rewrite (d_chan _ _ H). apply dark_iter_r; assumption. }
   pose proof (drain_chan_nil sa) as Hnil.
-  destruct Hd as [Hpc Hch Hsh Hwl Hfi Hb Hr Hc Hok Hprep Hnd].
+  destruct Hd as [Hpc Hch Hsh Hwl Hfi Hb Hr Hc Hok Hprep Hnx Hnd].
   set (xf := drain sf) in *. set (xa := drain sa) in *.
   assert (Hids : ids xa = wl xa ++ shl xa) by (unfold ids; rewrite Hnil; reflexivity).
   unfold flush_shmem_list.
@@ -279,11 +306,12 @@ Lemma with_chan_same s : with_chan (chan s) s = s.
 Proof. destruct s; reflexivity. Qed.
 
 Lemma pstep_mute_other single cap s :
+  nox s ->
   (forall r, pc s <> PFinish r) -> (forall r, pc s <> PStart r) -> pc s <> PPrepStart ->
   pstep_mute single cap s = pstep_closed single cap s.
 Proof.
-  intros H1 H2 H3. unfold pstep_mute, pstep_closed.
-  destruct (pc s) eqn:Epc; try (exfalso; eapply H1; reflexivity); try (exfalso; eapply H2; reflexivity);
+  intros Hnx H1 H2 H3. unfold pstep_mute, pstep_closed, nox in *.
+  destruct (pc s) eqn:Epc; try contradiction; try (exfalso; eapply H1; reflexivity); try (exfalso; eapply H2; reflexivity);
     try (exfalso; apply H3; reflexivity);
     unfold pstep; rewrite Epc;
     repeat match goal with |- context [match ?x with _ => _ end] => destruct x end; simp; destruct s; reflexivity.
@@ -334,7 +362,7 @@ Proof. intro E. unfold dstep. rewrite E. reflexivity. Qed.
 Lemma dark_dstep sf sa : Dark sf sa -> Dark (dstep true sf) sa.
 Proof.
   intros H. unfold dstep. destruct (pc sf) eqn:Epc; try exact H.
-  destruct H as [Hpc Hch Hsh Hwl Hfi Hb Hr Hc Hok Hprep Hnd].
+  destruct H as [Hpc Hch Hsh Hwl Hfi Hb Hr Hc Hok Hprep Hnx Hnd].
   constructor; simp; unfold cur_ok; simp; try assumption; try exact I.
   intros [E|E]; discriminate.
 Qed.
@@ -342,35 +370,85 @@ Qed.
 (* ------------------------------------------------------------------ the theorem *)
 Definition Rel (closed : bool) (sf sa : st) : Prop := sf = sa \/ (closed = true /\ Dark sf sa).
 
+(* no exec on the way: neither machine is ever inside an exec()ed image's set-up, no TASK_START in the pipe *)
+Definition NoX (s : st) : Prop := nox s /\ notask s.
+
+Lemma notask_append s s' m : chan s' = chan s ++ [m] -> (forall i, m <> MTask i) -> notask s -> notask s'.
+Proof.
+  intros Hc Hm H i Hin. rewrite Hc in Hin. apply in_app_or in Hin. destruct Hin as [Hin|[Hin|[]]]; [exact (H i Hin)|].
+  exact (Hm i Hin).
+Qed.
+Lemma notask_same s s' : chan s' = chan s -> notask s -> notask s'.
+Proof. intros Hc H i Hin. rewrite Hc in Hin. exact (H i Hin). Qed.
+
+Lemma nox_pstep single cap s : NoX s -> NoX (pstep single cap s).
+Proof.
+  intros [Hn Ht]. split; [apply pstep_nox; exact Hn|].
+  unfold nox in Hn. unfold pstep. destruct (pc s) eqn:Epc; try contradiction;
+    repeat match goal with |- context [match ?x with _ => _ end] => destruct x eqn:? end;
+    try (apply (notask_same s); [reflexivity | exact Ht]);
+    (eapply (notask_append s); [simp; reflexivity | intros; discriminate | exact Ht]).
+Qed.
+Lemma nox_pstep_closed single cap s : NoX s -> NoX (pstep_closed single cap s).
+Proof.
+  intros H. unfold pstep_closed. destruct (pc s) eqn:Epc; try (apply nox_pstep; exact H);
+    destruct H as [Hn Ht]; (split; [unfold nox; simp; exact I | apply (notask_same s); [reflexivity | exact Ht]]).
+Qed.
+Lemma nox_rstep s : NoX s -> NoX (rstep s).
+Proof.
+  intros [Hn Ht]. split; [|apply notask_rstep; exact Ht].
+  destruct (rstep_frame s) as [_ [F _]]. unfold nox in *. rewrite F. exact Hn.
+Qed.
+Lemma nox_wstep s : NoX s -> NoX (wstep s).
+Proof.
+  intros [Hn Ht]. unfold wstep. destruct (wl s); [split; assumption|].
+  split; [unfold nox, write_one in *; simp; exact Hn | apply (notask_same s); [reflexivity | exact Ht]].
+Qed.
+Lemma nox_dstep c s : NoX s -> NoX (dstep c s).
+Proof.
+  intros [Hn Ht]. unfold dstep, pend_thread. destruct (pc s) eqn:Epc; try (split; assumption).
+  destruct c; [|destruct (curr s)]; (split; [unfold nox; simp; exact I|]);
+    try (apply (notask_same s); [reflexivity | exact Ht]).
+  eapply (notask_append s); [simp; reflexivity | intros; discriminate | exact Ht].
+Qed.
+Lemma notask_task s : notask s -> TaskInv s.
+Proof. intros H pre i post E. exfalso. apply (H i). rewrite E. apply in_or_app. right. left. reflexivity. Qed.
+
 Lemma frun_rel single recs cap sched : forall sf sa closed,
-  Inv single recs sa -> Rel closed sf sa ->
+  Inv single recs sa -> NoX sa -> Rel closed sf sa ->
   file (finish (fst (frun single cap sched (sf, closed)))) = file (finish (run single cap (asched closed sched) sa)).
 Proof.
-  induction sched as [|l r IH]; intros sf sa closed HI HR.
-  - cbn. destruct HR as [->|[_ HD]]; [reflexivity | apply dark_finish_file; exact HD].
+  induction sched as [|l r IH]; intros sf sa closed HI HX HR.
+  - cbn. destruct HR as [->|[_ HD]]; [reflexivity | apply dark_finish_file; [apply HX | exact HD]].
   - cbn [frun fold_left asched]. unfold run. rewrite fold_left_app. fold (run single cap).
     destruct l; cbn [fstep alab fold_left].
     + (* producer *)
       destruct closed.
-      * cbn [step]. apply IH; [apply pstep_closed_inv; exact HI|].
+      * cbn [step]. apply IH; [apply pstep_closed_inv; exact HI | apply nox_pstep_closed; exact HX |].
         destruct HR as [->|[_ HD]].
         -- destruct (pc sa) eqn:Epc;
-             try (left; apply pstep_mute_other; rewrite Epc; intros; discriminate);
+             try (left; apply pstep_mute_other; [apply HX | rewrite Epc; intros; discriminate ..]);
              right; (split; [reflexivity|]); apply (dark_enter single recs); try exact HI; eauto.
         -- right. split; [reflexivity|]. rewrite (pstep_closed_dark _ _ _ (d_pc _ _ HD)). apply dark_pstep. exact HD.
-      * cbn [step]. apply IH; [apply pstep_inv; exact HI|].
+      * cbn [step]. apply IH; [apply pstep_inv; exact HI | apply nox_pstep; exact HX |].
         destruct HR as [->|[E _]]; [left; reflexivity | discriminate].
-    + cbn [step]. apply IH; [apply rstep_inv; exact HI|].
-      destruct HR as [->|[E HD]]; [left; reflexivity | right; split; [exact E | apply dark_rstep; exact HD]].
-    + cbn [step]. apply IH; [apply wstep_inv; exact HI|].
+    + cbn [step]. apply IH; [apply rstep_inv; [apply notask_task; apply HX | exact HI] | apply nox_rstep; exact HX |].
+      destruct HR as [->|[E HD]]; [left; reflexivity | right; split; [exact E | apply dark_rstep; [apply HX | exact HD]]].
+    + cbn [step]. apply IH; [apply wstep_inv; exact HI | apply nox_wstep; exact HX |].
       destruct HR as [->|[E HD]]; [left; reflexivity | right; split; [exact E | apply dark_wstep; exact HD]].
     + (* the pipe is closed *)
-      apply IH; [exact HI|]. destruct HR as [->|[_ HD]]; [left; reflexivity | right; split; [reflexivity|exact HD]].
+      apply IH; [exact HI | exact HX |]. destruct HR as [->|[_ HD]]; [left; reflexivity | right; split; [reflexivity|exact HD]].
     + (* mtd_dtor *)
-      destruct closed; cbn [step]; (apply IH; [apply dstep_inv; exact HI|]).
+      destruct closed; cbn [step]; (apply IH; [apply dstep_inv; exact HI | apply nox_dstep; exact HX |]).
       * destruct HR as [->|[_ HD]]; [left; reflexivity|].
         right. split; [reflexivity|]. rewrite (dstep_dark _ _ (d_pc _ _ HD)). apply dark_dstep. exact HD.
       * destruct HR as [->|[E _]]; [left; reflexivity | discriminate].
+Qed.
+
+Lemma start_nox setup recs : NoX (start setup recs).
+Proof.
+  split; [destruct setup; exact I|]. intros i Hin. destruct setup; cbn in Hin; [exact Hin|].
+  destruct Hin as [Hin|[]]. discriminate.
 Qed.
 
 (* the faithful machine (every store of a thread that lost its connection to the recorder happens) and the
@@ -378,7 +456,7 @@ Qed.
 Theorem dark_is_faithful setup single cap recs sched :
   file (finish (fst (frun single cap sched (start setup recs, false))))
   = file (finish (run single cap (asched false sched) (start setup recs))).
-Proof. apply (frun_rel single recs). apply start_inv. left. reflexivity. Qed.
+Proof. apply (frun_rel single recs); [apply start_inv | apply start_nox | left; reflexivity]. Qed.
 
 (* hence the guarantee for the faithful machine *)
 Theorem prefix_faithful setup cap recs sched :
